@@ -85,6 +85,10 @@ func primNotExpiredTime() km.Prim {
 	}}
 }
 
+// c04CurrentType: the claims type whose obligations checkC04 is generating (read by properties that borrow the
+// obligations of one token kind).
+var c04CurrentType string
+
 type claimsConsumer struct {
 	fn    *ssa.Function
 	call  *ssa.Call
@@ -171,6 +175,12 @@ func checkC04(c *km.Ctx) {
 	verList := RS + "getJoseKeymastedVerifierList"
 	listOK := primErrNil("verifier list ok", verList, 1)
 	var consumers []claimsConsumer
+	type verifyingDecoder struct {
+		fn    *ssa.Function
+		claim *ssa.Call
+		dest  *ssa.Parameter
+	}
+	var decoders []verifyingDecoder
 	for _, fn := range c.P.AllFuncs {
 		if fn.Pkg == nil || !pkgIsKMD(fn.Pkg) {
 			continue
@@ -199,6 +209,48 @@ func checkC04(c *km.Ctx) {
 					if dest := sliceSingleElem(sl); dest != nil {
 						consumers = append(consumers, claimsConsumer{fn, cl, km.NamedTypeOf(dest.Type()), dest})
 					}
+				} else if dp, isP := km.Unwrap(args[2]).(*ssa.Parameter); isP && dp.Parent() == fn {
+					// a verifying decoder: parses, verifies into the destination its caller names, and hands the
+					// verdict back; its callers are the consumers
+					decoders = append(decoders, verifyingDecoder{fn, cl, dp})
+				}
+			}
+		}
+	}
+	for _, d := range decoders {
+		// the decoder reports success only after its JWTClaims call verified
+		res := d.fn.Signature.Results()
+		ei := res.Len() - 1
+		if ei < 0 || !isErrorType(res.At(ei).Type()) {
+			r.Add("R-C04-1", km.FuncName(d.fn), "verifying decoder reports its verdict", c.P.Pos(d.fn.Pos()), "an error result", "none", false)
+			continue
+		}
+		okV := primErrNilCall("claims verified", d.claim, 0)
+		for _, rc := range s.RetCases(d.fn) {
+			if !km.IsNilConst(rc.Results[ei]) {
+				continue
+			}
+			good := rc.State.All(func(k km.Conj) bool { return s.Holds(k, okV) })
+			r.Add("R-C04-1", km.FuncName(d.fn), "verifying decoder success", posOf(c, rc.Ret), "nil is returned only after JWTClaims verified into the caller's destination", clipS(rc.State.String(), 200), good)
+		}
+		pi := -1
+		for i, q := range d.fn.Params {
+			if q == d.dest {
+				pi = i
+			}
+		}
+		for _, cs := range c.G.Callers[d.fn] {
+			cl, isCall := cs.Instr.(*ssa.Call)
+			if !isCall {
+				continue
+			}
+			a := km.CallArgs(cl.Common())
+			if pi < 0 || pi >= len(a) {
+				continue
+			}
+			if sl, ok := km.Unwrap(a[pi]).(*ssa.Slice); ok {
+				if dest := sliceSingleElem(sl); dest != nil {
+					consumers = append(consumers, claimsConsumer{cs.Caller, cl, km.NamedTypeOf(dest.Type()), dest})
 				}
 			}
 		}
@@ -308,6 +360,7 @@ func checkC04(c *km.Ctx) {
 	var kinds []kind
 	for _, cons := range consumers {
 		fn := cons.fn
+		c04CurrentType = cons.typ
 		st := structOf(cons.alloc.Type())
 		if st == nil {
 			continue
@@ -360,10 +413,7 @@ func checkC04(c *km.Ctx) {
 			if f.Op != token.EQL {
 				return false
 			}
-			isIss := func(v ssa.Value) bool {
-				cl, ok := km.Unwrap(v).(*ssa.Call)
-				return ok && km.CalleeFull(cl.Common()) == RS+"idpGetIssuer"
-			}
+			isIss := func(v ssa.Value) bool { return isIssuerValue(c, v, 0) }
 			return (fieldLoadOf(resolve(f.X), cons.typ, "Issuer") && isIss(resolve(f.Y))) || (fieldLoadOf(resolve(f.Y), cons.typ, "Issuer") && isIss(resolve(f.X)))
 		}}
 		audLen := km.Prim{Name: "len(aud) >= 1", Rel: func(f km.Fact, resolve func(ssa.Value) ssa.Value) bool {
@@ -393,10 +443,7 @@ func checkC04(c *km.Ctx) {
 				i, ok := km.ConstInt(ia.Index)
 				return ok && i == 0 && fieldLoadOf(resolve(ia.X), cons.typ, "Audience")
 			}
-			isIss := func(v ssa.Value) bool {
-				cl, ok := km.Unwrap(v).(*ssa.Call)
-				return ok && km.CalleeFull(cl.Common()) == RS+"idpGetIssuer"
-			}
+			isIss := func(v ssa.Value) bool { return isIssuerValue(c, v, 0) }
 			return (isAud0(f.X) && isIss(resolve(f.Y))) || (isAud0(f.Y) && isIss(resolve(f.X)))
 		}}
 		nbf := km.Prim{Name: "nbf <= now", Rel: func(f km.Fact, resolve func(ssa.Value) ssa.Value) bool {
@@ -438,6 +485,7 @@ func checkC04(c *km.Ctx) {
 			continue
 		}
 		seenKind[k] = true
+		c04CurrentType = k.typ
 		intended := 0
 		for _, p := range producers {
 			val, hasConst := p.consts[k.key]
@@ -452,8 +500,10 @@ func checkC04(c *km.Ctx) {
 		r.Add("R-C04-2", short(k.typ), "producer exists for kind "+k.key+"="+k.val, "-", "the kind's own producer writes exactly the constant its consumer checks", sprintf("%d producer(s)", intended), intended >= 1)
 	}
 
+	c04CurrentType = ""
 	// ---------- R-C04-4
 	checkExpiry(c, s, consumers)
+	c04CurrentType = ""
 
 	// a signed storage record is honoured only for the user it was signed for: C07's obligation on GetSigned
 	// (record verified ∧ subject == requested user on every path that returns a record), borrowed here because it
@@ -858,6 +908,7 @@ func checkExpiry(c *km.Ctx, s *km.Sem, consumers []claimsConsumer) {
 	}
 	for _, cons := range expanded {
 		fn := cons.fn
+		c04CurrentType = cons.typ
 		switch cons.typ {
 		case KMD + ".authInfoJWT":
 			if remints(fn, cons.typ) {
@@ -934,7 +985,7 @@ func authInfoUsers(c *km.Ctx, get *ssa.Function) []infoUser {
 			if !ok {
 				continue
 			}
-			if km.NameOf(cs.Caller) == "getAuthInfoFromAuthJWT" {
+			if km.NameOf(cs.Caller) == "getAuthInfoFromAuthJWT" || returnsResultOf(cs.Caller, cl) {
 				walk(cs.Caller)
 				continue
 			}
@@ -974,4 +1025,64 @@ func infoHonourPoints(c *km.Ctx, s *km.Sem, fn *ssa.Function, call *ssa.Call) []
 		}
 	}
 	return out
+}
+
+// returnsResultOf: fn is a thin wrapper around call: every return of fn that is not a zero value hands back the
+// call's first result as fn's first result.
+func returnsResultOf(fn *ssa.Function, call *ssa.Call) bool {
+	n := 0
+	for _, b := range fn.Blocks {
+		ret, ok := b.Instrs[len(b.Instrs)-1].(*ssa.Return)
+		if !ok {
+			continue
+		}
+		rv := km.ReturnValues(ret)
+		if len(rv) == 0 {
+			return false
+		}
+		v := km.CellOrigin(km.Unwrap(rv[0]))
+		if cl, idx := callRes(v); cl == call && idx == 0 {
+			n++
+			continue
+		}
+		if _, isC := v.(*ssa.Const); isC {
+			continue
+		}
+		return false
+	}
+	return n > 0
+}
+
+// isIssuerValue: v is state.idpGetIssuer(), or a parameter every caller binds to it.
+func isIssuerValue(c *km.Ctx, v ssa.Value, depth int) bool {
+	v = km.CellOrigin(km.Unwrap(v))
+	if cl, ok := v.(*ssa.Call); ok {
+		return km.CalleeFull(cl.Common()) == RS+"idpGetIssuer"
+	}
+	p, ok := v.(*ssa.Parameter)
+	if !ok || depth > 3 {
+		return false
+	}
+	fn := p.Parent()
+	idx := -1
+	for i, q := range fn.Params {
+		if q == p {
+			idx = i
+		}
+	}
+	sites := c.G.Callers[fn]
+	if idx < 0 || len(sites) == 0 || len(c.G.AddrTaken[fn]) > 0 {
+		return false
+	}
+	for _, cs := range sites {
+		ci, isCI := cs.Instr.(ssa.CallInstruction)
+		if !isCI {
+			return false
+		}
+		a := km.CallArgs(ci.Common())
+		if idx >= len(a) || !isIssuerValue(c, a[idx], depth+1) {
+			return false
+		}
+	}
+	return true
 }
